@@ -232,3 +232,19 @@ Definition init_fs (prog:ast) (stdin:list (list N)) (disk:list (list N * list N)
   {| m_heap := h; m_req := PositiveMap.empty _; m_stack := [{| fr_tid := None; fr_comp := call (PFormat (VThunk t) false); fr_konts := [] |}];
      m_world := world_start stdin disk; m_dbg := {| depth := 0; dstack := []; events := [] |} |}.
 Definition run_main_fs (fuel:nat) (prog:ast) (stdin:list (list N)) (disk:list (list N * list N)) : outcome * mstate := run fuel (init_fs prog stdin disk).
+
+(* main.main on several expressions: one evaluate() per expression, in the heap and world left by the ones before; stops at the first failure *)
+Definition init_in (h:heap) (w:world) (prog:ast) (fio:bool) : mstate :=
+  let (h1, t) := alloc h prog {| funs := []; args := [] |} in
+  {| m_heap := h1; m_req := PositiveMap.empty _; m_stack := [{| fr_tid := None; fr_comp := call (PFormat (VThunk t) fio); fr_konts := [] |}];
+     m_world := w; m_dbg := {| depth := 0; dstack := []; events := [] |} |}.
+Fixpoint run_many (fuel:nat) (h:heap) (w:world) (progs:list ast) (fio:bool) : list (outcome * mstate) :=
+  match progs with
+  | [] => []
+  | p :: r => let os := run fuel (init_in h w p fio) in
+              os :: match fst os with ODone _ => run_many fuel (m_heap (snd os)) (m_world (snd os)) r fio | _ => [] end
+  end.
+Definition run_main_many (fuel:nat) (progs:list ast) (stdin:list (list N)) (disk:list (list N * list N)) (fio:bool) : list (outcome * mstate) :=
+  run_many fuel heap0 (world_start stdin disk) progs fio.
+Lemma init_is_init_in prog stdin : init prog stdin = init_in heap0 (world_start stdin []) prog false. Proof. reflexivity. Qed.
+Lemma init_fs_is_init_in prog stdin disk : init_fs prog stdin disk = init_in heap0 (world_start stdin disk) prog false. Proof. reflexivity. Qed.
